@@ -141,16 +141,49 @@ def use_nestle_double(on):
     nestle.sample = _nestle_sample if on else _saved_nestle_sample
 
 
+class RealNestleBudget(Exception):
+    """The real nestle library exceeded the simulation's step budget inside
+    one of its own unbounded loops (harness condition, never a violation)."""
+
+
+_saved_sample_ellipsoids = None
+
+
 def bound_real_nestle(maxcall):
     """Harness seam: the real nestle.sample with a cap on likelihood calls
-    (step cap of the simulation; nestle returns a regular Result)."""
+    (step cap of the simulation; nestle returns a regular Result).  nestle
+    checks maxcall only between iterations; its inner loops (new_point: until
+    a likelihood above the threshold is drawn; propose_point: until a point
+    inside the unit cube is drawn) are unbounded, so both are counted here and
+    abandoned deterministically."""
     import nestle
+    global _saved_sample_ellipsoids
     real = _saved_nestle_sample
+    if _saved_sample_ellipsoids is None:
+        _saved_sample_ellipsoids = nestle.sample_ellipsoids
+    real_se = _saved_sample_ellipsoids
 
     def bounded(loglikelihood, prior_transform, ndim, **kw):
         kw.setdefault('maxcall', maxcall)
         kw['callback'] = None
-        return real(loglikelihood, prior_transform, ndim, **kw)
+        count = {'like': 0, 'prop': 0}
+
+        def counted_like(x):
+            count['like'] += 1
+            if count['like'] > 3 * maxcall:
+                raise RealNestleBudget('likelihood calls')
+            return loglikelihood(x)
+
+        def counted_se(ells, rstate=None):
+            count['prop'] += 1
+            if count['prop'] > 60 * maxcall:
+                raise RealNestleBudget('proposals')
+            return real_se(ells, rstate=rstate)
+        nestle.sample_ellipsoids = counted_se
+        try:
+            return real(counted_like, prior_transform, ndim, **kw)
+        finally:
+            nestle.sample_ellipsoids = real_se
     nestle.sample = bounded
 
 
